@@ -54,7 +54,7 @@ def dir_state(st):
 
 def mutate(r, data):
     lines = data.split(b"\n")
-    kind = r.pick(["none", "truncate-line", "truncate-byte", "bitflip", "conflict", "shuffle", "dup-line", "unknown-type", "wrong-types", "scalar-line", "crlf", "blank-lines", "no-final-nl", "huge"])
+    kind = r.pick(["none", "truncate-line", "truncate-byte", "bitflip", "conflict", "shuffle", "dup-line", "unknown-type", "wrong-types", "scalar-line", "crlf", "blank-lines", "no-final-nl", "huge", "dangling-edge", "dangling-edge"])
     if kind == "truncate-line" and len(lines) > 2:
         data = b"\n".join(lines[:1 + r.n(len(lines) - 1)]) + b"\n"
     elif kind == "truncate-byte" and len(data) > 2:
@@ -68,6 +68,32 @@ def mutate(r, data):
         body = lines[:-1]; i, j = r.n(len(body)), r.n(len(body)); body[i], body[j] = body[j], body[i]; data = b"\n".join(body) + b"\n"
     elif kind == "dup-line" and len(lines) > 2:
         i = r.n(len(lines) - 1); data = b"\n".join(lines[:i + 1] + lines[i:])
+    elif kind == "dangling-edge":
+        # well-formed lines about items the log never created (the creating line was lost in a merge, an id was mistyped while resolving a conflict):
+        # an edge to / from nowhere, a state, a claim, an epic assignment and a result for an unknown id, a task under an unknown epic
+        ids = []
+        for l in lines:
+            try:
+                e = json.loads(l)
+                if e.get("type") == "new_task":
+                    ids.append(e["data"]["id"])
+            except Exception:
+                pass
+        T = "2026-01-01T00:00:00Z"
+        live = r.pick(ids) if ids else "AAAAAA"
+        extra = [{"type": "link", "ts": T, "data": {"from_id": live, "to_id": "NOSUCH", "type": "depends"}},
+                 {"type": "link", "ts": T, "data": {"from_id": "NOWHER", "to_id": live, "type": "depends"}},
+                 {"type": "state", "ts": T, "data": {"id": "NOSUCH", "state": "done", "ts": T}},
+                 {"type": "claim", "ts": T, "data": {"id": "NOSUCH", "agent_id": "x", "ts": T}},
+                 {"type": "epic", "ts": T, "data": {"id": live, "epic_id": "NOEPIC", "ts": T}},
+                 {"type": "result", "ts": T, "data": {"task_id": "NOSUCH", "summary": "s", "path": "p", "sha256_at_attach": "0", "ts": T}},
+                 {"type": "new_task", "ts": T, "data": {"id": "ORPHAN", "uuid": "u", "epic_id": "NOEPIC", "state": "todo", "title": "under an unknown epic", "body": "", "created_at": T}},
+                 {"type": "link", "ts": T, "data": {"from_id": "ORPHAN", "to_id": "NOSUCH", "type": "depends"}}]
+        k = 1 + r.n(len(extra))
+        pick_ = [extra[r.n(len(extra))] for _ in range(k)] + extra[:1]
+        if not data.endswith(b"\n") and data:
+            data += b"\n"
+        data += "".join(json.dumps(x, separators=(",", ":")) + "\n" for x in pick_).encode()
     elif kind == "unknown-type":
         data += b'{"type":"future_thing","ts":"2026-01-01T00:00:00Z","data":{"id":"AAAAAA","x":[1,2,{"y":null}]}}\n'
     elif kind == "wrong-types":
